@@ -128,6 +128,42 @@ CLAIMED = {
         "Trusts Python list semantics as the reference for index arithmetic and the harness' own audit code.",
         "DESIGN.md section 4 (C15)",
     ),
+    "C16": (
+        "PBT with an independent numpy feasibility oracle computed from the spec; seed-reproducibility and validate() metamorphic relations",
+        "Exploration: generated feasible polytopes (forced/fixed fluxes, user constraints) x ACHR/OptGP x entry points x "
+        "n/thinning/nproj/seeds/processes; every returned sample checked against S v = 0, bounds and user constraints "
+        "recomputed from the spec, frame shape/columns, same-seed reproducibility, validate() on feasible and perturbed rows, "
+        "documented refusals as expected outcomes.",
+        "Trusts the harness' numpy feasibility computation and the exact dimension computation (exactlp); feasibility is "
+        "decided for the samples drawn only.",
+        "DESIGN.md section 4 (C16)",
+    ),
+    "C17": (
+        "PBT against an exact removable-cycle LP and sign-pattern enumeration of cycle-free distributions",
+        "Exploration: generated networks with constructed internal cycles x starting vectors (None, optimize, pFBA, exact "
+        "vertices with cycle flux pushed to a bound); loopless_solution judged by feasibility, objective/boundary "
+        "preservation, monotonicity and an exact LP proving that no cycle can be removed; add_loopless judged against "
+        "the exact optimum over all cycle-free sign patterns.",
+        "Trusts exactlp certificates and the cycle LP formulation in vfw/props/c17.py / vfw/oracles.py; <= 6 internal reactions.",
+        "DESIGN.md section 4 (C17)",
+    ),
+    "C18": (
+        "PBT with an independent bound-table reference for the medium setter/getter and exact LP / exhaustive subset enumeration for minimal_medium",
+        "Exploration: generated exchange-rich models (both written directions, SBO/compartment/prefix recognition, "
+        "distractors) x medium assignments and self-assignments; minimal_medium for all option combinations judged by "
+        "exact feasibility verdict, sufficiency through a fresh build, exact minimal total import and exact minimal "
+        "component count (subset enumeration), validity and distinctness of alternatives.",
+        "Trusts the recomputation of the exchange set from the spec (cases where Model.exchanges disagrees are skipped and counted) and exactlp.",
+        "DESIGN.md section 4 (C18)",
+    ),
+    "C19": (
+        "PBT against exact rational flux ranges without objective row (blocked set) and exact re-analysis of the model fastcc returns",
+        "Exploration: generated networks with dead ends, detours, isolated cycles, closed boundaries x reaction_list shapes x "
+        "open_exchanges x processes; find_blocked_reactions must equal the exact blocked set; fastcc result compared with "
+        "the exact complement, per-reaction content, consistency and input invariance.",
+        "Trusts exactlp; exchanges are identified independently only for the unambiguous 'e' compartment case.",
+        "DESIGN.md section 4 (C19)",
+    ),
     "C20": (
         "PBT with an independent recomputation of every summary table from the Solution and the spec (exact rational FVA for fva=float)",
         "Exploration: generated exchange-rich models x solutions (optimize, pfba, exact vertices with noise, None) x fva "
